@@ -186,6 +186,7 @@ func Register$1 returns (r)
 
 func Register returns (err)
   props C02 C08 C09 C10 C17
+  requires @streams logStream != nil && dbStream != nil
   requires @sink rc.ReporterConfig.Output != nil && !typeis(rc.ReporterConfig.Output, "*bufio.Writer") && !typeis(rc.ReporterConfig.Output, "*encoding/csv.Writer") && TreeInv()
   modifies *
   modifies ghost(cbLen, cbErr, cbNode, cbStop, cbRet, cbLineNo, cbLine, cbHeader, cbElems, cbNElems, scRd, scPos, privLo, evOf, accKey, accP, accN, accH, bufSink, bufSticky, sinkFailed, sinkPend, prLen, prSink, prArg, prArgs, csvLen, csvW, csvN, csvRow, tnodes, tdepth, tmax, tmapOf, jlen)
